@@ -7,7 +7,7 @@ import stat
 import tempfile
 from pathlib import Path
 
-from vlib import conclude, REPO
+from vlib import conclude, REPO, VERIF
 import cdgen
 import gen_model
 import realcode  # noqa: F401
@@ -198,6 +198,40 @@ def run(ctx):
             if code != want:
                 ctx.report(f'clex-mode-fails-when-run:{arg}', f'clex {arg} {idx} on the sample text exits {code}, expected {want}: {err.strip()[:160]}',
                            {'kind': 'clex-run', 'mode': arg, 'idx': idx, 'text': rich})
+    # … and every shipped entry of every pass goes through the real Python pass the way the driver would use it (new, then the
+    # first transform), with the compiled clex and stand-ins for the other helpers: a pass that refuses a shipped argument
+    # (UnknownArgumentError or any other exception from new / transform) does not implement its schedule
+    from cvise.utils.error import UnknownArgumentError
+    STAND = VERIF / 'tools' / 'standins'
+    ext = {'clex': str(exe), 'clang_delta': str(STAND / 'clang_delta'), 'unifdef': str(STAND / 'unifdef'), 'topformflat': str(STAND / 'topformflat'),
+           'clang-format': '/bin/true', 'gcov-dump': str(STAND / 'gcov-dump')}
+    os.environ['CD_SCEN'] = str(Path(d) / 'cd.json')
+    os.environ['CD_LOG'] = str(Path(d) / 'cd.log')
+    (Path(d) / 'cd.json').write_text('{}')
+    (Path(d) / 'cd.log').write_text('')
+    seen_entries = set()
+    for fname, cat, i, e in shipped_entries():
+        key = (e.get('pass'), json.dumps(e.get('arg')))
+        if key in seen_entries or e.get('pass') not in CVise.pass_name_mapping:
+            continue
+        seen_entries.add(key)
+        tcp = Path(d) / 'entry.c'
+        tcp.write_text(rich + 'I0;\n#if FOO\nint a;\n#endif\n')
+        inst = CVise.pass_name_mapping[e['pass']](e.get('arg'), ext)
+        inst.max_transforms = None
+        inst.user_clang_delta_std = 'c++17'
+        inst.clang_delta_preserve_routine = None
+        checked += 1
+        try:
+            st = inst.new(str(tcp), lambda: None)
+            if st is not None:
+                inst.transform(str(tcp), st, ProcessEventNotifier(None))
+        except UnknownArgumentError as ex_:
+            ctx.report(f"python-pass-rejects-argument:{e['pass']}:{e.get('arg')}", f'{fname} {cat}[{i}] = {e}: the pass itself refuses it: {ex_}'[:380],
+                       {'kind': 'group-entry', 'file': fname, 'category': cat, 'index': i, 'entry': e})
+        except Exception as ex_:  # noqa: BLE001
+            ctx.report(f"python-pass-raises-on-shipped-argument:{e['pass']}:{e.get('arg')}", f'{fname} {cat}[{i}] = {e}: {type(ex_).__name__}: {ex_}'[:380],
+                       {'kind': 'group-entry', 'file': fname, 'category': cat, 'index': i, 'entry': e})
     shutil.rmtree(cd, ignore_errors=True)
     ctx.sample({'entry': {'pass': 'clangbinarysearch', 'arg': 'remove-unused-function'}, 'registered_class': regs.get('remove-unused-function'), 'multi': regs.get('remove-unused-function') in multi})
     ctx.sample({'clex_prefix_modes': pref, 'clex_exact': sorted(exact)})
